@@ -9,7 +9,7 @@ PROP = dict(
                "aligned to the smallest unit of the field's quantum (unaligned bounds are C18); int fields use min=0 so that conditions stay clear of finding D16; "
                "keyed indexes/fields are not generated. Open finding D18 (Shift carry over a shard edge below a per-shard operator or Store) is tolerated by exactly that shape.",
     rule="distinct = hash of schema + data program + query texts. non-trivial = some query of depth >= 2 whose leaf operands hold bits in >= 2 shards, or a Shift "
-         "whose operand has a bit on the last column of a container or shard, or a Not while a shard holding operand bits has no existence data, or (write "
+         "whose operand has a bit on the last column of a container or shard, or a Not while some shard with existence data holds no bit of the operand, or (write "
          "programs) a Store whose source spans >= 2 shards or which removes the row from a shard, or a ClearRow that removed bits.",
     assumptions=["reference model = harness/pkg/server/gpql_model_test.go, grounded in docs/query-language.md",
                  "missing field: any error is accepted; if a result is returned the missing field counts as empty. Not without trackExistence must return an error (docs: 'requires').",
@@ -18,7 +18,7 @@ PROP = dict(
                  "Clear is not generated on noStandardView time fields (finding D22 of group gT); quantum 'H' alone is not generated (finding D21)"],
     tags=["gpql"],
     units=[
-        U("expr", "./server", "^TestVerifC15_Expr$", 320, 9000, timeout={"quick": 600, "thorough": 3000}),
-        U("writes", "./server", "^TestVerifC15_Writes$", 240, 7000, timeout={"quick": 600, "thorough": 3000}),
+        U("expr", "./server", "^TestVerifC15_Expr$", 200, 8000, timeout={"quick": 600, "thorough": 3000}),
+        U("writes", "./server", "^TestVerifC15_Writes$", 160, 6000, timeout={"quick": 600, "thorough": 3000}),
     ],
 )
